@@ -263,6 +263,7 @@ class Engine:
         if z3.is_true(cond):
             return
         self.st.pc.append(cond)
+        self.B.note_bounds(self, cond)
 
     def axiom(self, cond):
         seen = self.st.__dict__.setdefault('axiom_ids', set())
@@ -447,7 +448,10 @@ class Engine:
                     return f.vars[name]
                 f = f.parent
         if self.pure and self.specs is not None and self.specs.has(name):
-            return PyObj('spec', self.specs.get(name))
+            g = self.specs.get(name)
+            if isinstance(g, tuple):
+                return self.eval(g[1], Frame(None))        # a constant of a spec module
+            return PyObj('spec', g)
         mod = self.cur_module(fr)
         if mod is not None:
             r = self.module_name(mod, name)
@@ -456,7 +460,10 @@ class Engine:
         if name in self.builtin_names:
             return self.builtin_names[name]
         if self.specs is not None and self.specs.has(name):
-            return PyObj('spec', self.specs.get(name))
+            g = self.specs.get(name)
+            if isinstance(g, tuple):
+                return self.eval(g[1], Frame(None))
+            return PyObj('spec', g)
         if name in T.STRUCTS:
             return PyObj('class', self.repo.modules['afkak.common'].classes[name])
         raise Unsupported('name %r cannot be resolved' % name)
@@ -650,6 +657,11 @@ class Engine:
             return V(v.ty, -v.t)
         if isinstance(node.op, ast.UAdd):
             return self.num(v)
+        if isinstance(node.op, ast.Invert):
+            v = self.num(v)
+            if v.ty != INT:
+                raise Unsupported('~ on a non-int')
+            return V(INT, -v.t - 1)            # two's complement of unbounded ints: ~x == -x - 1
         raise Unsupported('unary op %s' % type(node.op).__name__)
 
     def e_Compare(self, node, fr):
@@ -807,7 +819,7 @@ class Engine:
             # Python floor semantics; z3 div/mod are Euclidean: identical for positive divisors
             yv = z3.simplify(y.t)
             if z3.is_int_value(yv) and yv.as_long() > 0:
-                return V(INT, x.t / y.t if isinstance(op, ast.FloorDiv) else x.t % y.t)
+                return V(INT, x.t / y.t if isinstance(op, ast.FloorDiv) else self.B.smod(self, x.t, yv.as_long()))
             q = z3.If(y.t > 0, x.t / y.t, z3.If(x.t % y.t == 0, x.t / y.t, x.t / y.t))  # refined below
             # floor(x/y) for y<0: -ceil(x/-y) = -((x + (-y) - 1) div (-y)) when using Euclidean div on positive divisor
             ny = -y.t
@@ -1010,6 +1022,8 @@ class Engine:
             return fobj.payload(self, args, kwargs, fr, node)
         if k == 'spec':
             return self.specs.call(self, fobj.payload, args, kwargs)
+        if k == 'type':
+            return self.B.type_call(self, fobj.payload, args, kwargs, fr, node)
         if k == 'method':
             return self.B.call_method(self, fobj, args, kwargs, fr, node)
         if k == 'class':
@@ -1136,6 +1150,17 @@ class Engine:
             bound = self.bind_args(c.params, args, dict(kwargs), defaults_frame=fr_c)
         finally:
             self._lazy_bind = False
+        if c.extra.get('poly'):
+            # parameters declared polymorphic keep the caller's static type (the unit itself is verified once per
+            # `type_instances` entry); anything else is outside the contract
+            raw = dict(zip([p[0] for p in c.params], args))
+            raw.update(kwargs)
+            allowed = [T.parse_ty(t[pn]) for t in c.extra.get('type_instances', {}).values() for pn in t]
+            for pn in c.extra['poly']:
+                if pn in raw and isinstance(raw[pn], V):
+                    if raw[pn].ty not in allowed:
+                        raise Unsupported('%s called with %s of type %s (no such type instance)' % (c.qualname, pn, raw[pn].ty))
+                    bound[pn] = raw[pn]
         fr_c.vars.update(bound)
         fr_c.vars.update({'p_' + k_: v_ for k_, v_ in bound.items()})
         nm = (fi.qualname if fi else c.qualname).split('afkak.')[-1]
